@@ -13,6 +13,7 @@ SIG = {'int': 'xxx', 'root': 'xd', 'prim': 'xd', 'num': 'sd'}
 encode = default_encode(SIG)
 decode = default_decode(SIG)
 TASK_REQS = 1500
+TIMEOUT = 2700   # watchdog per task; the 8192-bit u8-digit type in the debug build is the slowest configuration
 EXH_SCALE = 0.25   # binary gcd is slow: narrower quick-tier slices in the in-process sweeps
 RULE = ('Integer (div_floor, mod_floor, div_rem, div_mod_floor, div_ceil, next/prev_multiple_of, gcd, lcm, gcd_lcm, is_multiple_of, is_even/odd), Roots (sqrt, cbrt, nth_root '
         'with degrees 1..8, 40, 63..65, BITS-1..BITS+1, u32::MAX and random), Euclid, CheckedEuclid, Signed, PrimInt, Bounded, '
@@ -69,6 +70,9 @@ def requests(cfg, rng, n, tier, part, nparts, st):
                 vals += [m, -m]
         vals = sorted(set(cfg.wrap(v) for v in vals))
         allp = [(a, b) for a in vals for b in vals]
+        if cfg.n >= 128:
+            # 2600 pairs x ~55 trait calls at up to 8192 bits is minutes of debug-build time per configuration: a seed-dependent tenth of the pairs
+            allp = allp[rng.randrange(10)::10]
         lo_, hi_ = (len(allp) * part // nparts, len(allp) * (part + 1) // nparts)
         for a, b in allp[lo_:hi_]:
             yield 'int', (a, b, 0)
